@@ -112,7 +112,8 @@ fn grid(tier: Tier) -> Vec<C18World> {
         w.profile = if i % 3 == 0 { "release".into() } else { "debug".into() };
         g.push(w);
     }
-    for (kind, n, op, stack, prof) in [("boolean_fan", 14_000u64, "union_right", 2u64 << 20, "debug"), ("boolean_fan", 30_000u64, "union", 2u64 << 20, "debug"), ("boolean", 20_000u64, "intersection", 2u64 << 20, "debug"), ("boolean", 30_000, "difference", 2 << 20, "debug"), ("boolean_stairs", 30_000, "union", 2 << 20, "debug")] {
+    for (kind, n, op, stack, prof) in [("boolean_fan", 14_000u64, "union_right", 2u64 << 20, "debug"), ("boolean_fan", 30_000u64, "union", 2u64 << 20, "debug"), ("boolean", 20_000u64, "intersection", 2u64 << 20, "debug"), ("boolean", 30_000, "difference", 2 << 20, "debug"), ("boolean_stairs", 30_000, "union", 2 << 20, "debug"),
+        ("boolean_hcomb", 30_000, "union", 2 << 20, "debug"), ("boolean_overlap", 30_000, "union", 2 << 20, "debug")] {
         let mut w = base(kind, stack, n, "asc", "drop");
         w.op = op.into();
         w.profile = prof.into();
@@ -123,7 +124,9 @@ fn grid(tier: Tier) -> Vec<C18World> {
         ("boolean_fan", 120_000, "union", 2 << 20), ("boolean_fan", 300_000, "xor", 8 << 20),
         ("boolean_row", 60_000, "union", 2 << 20), ("boolean_row", 250_000, "xor", 8 << 20),
         ("boolean_nested", 120_000, "intersection_dot", 2 << 20), ("boolean_nested", 120_000, "difference_dot", 2 << 20),
-        ("boolean_nested", 120_000, "xor", 2 << 20)] {
+        ("boolean_nested", 120_000, "xor", 2 << 20),
+        ("boolean_hcomb", 150_000, "union", 2 << 20), ("boolean_hcomb", 150_000, "intersection", 2 << 20), ("boolean_hcomb", 250_000, "xor", 8 << 20),
+        ("boolean_overlap", 150_000, "union", 2 << 20), ("boolean_overlap", 150_000, "xor", 2 << 20), ("boolean_overlap", 250_000, "difference", 8 << 20)] {
         let mut w = base(kind, stack, n, "asc", "drop");
         w.op = op.into();
         g.push(w);
@@ -531,6 +534,42 @@ fn row_scenario(w: &C18World) {
     marker(&format!("returned polygons={}", r.0.len()));
 }
 
+/// Comb with vertical teeth (the comb transposed) against a flat box whose top edge crosses every tooth: one long
+/// horizontal segment is split 2*teeth times, piece by piece, while the sweep line itself stays shallow.
+fn hcomb_scenario(w: &C18World) {
+    let teeth = w.n.max(1);
+    let c = comb(teeth);
+    let t = Polygon::new(LineString(c.exterior().0.iter().map(|p| Coord { x: p.y, y: p.x }).collect::<Vec<_>>()), vec![]);
+    let right = (2 * teeth) as f64;
+    let flat = Polygon::new(LineString(vec![Coord { x: -1.0, y: -1.0 }, Coord { x: right, y: -1.0 }, Coord { x: right, y: 5.0 }, Coord { x: -1.0, y: 5.0 }, Coord { x: -1.0, y: -1.0 }]), vec![]);
+    marker(&format!("boolean hcomb {} teeth={} edges={}", w.op, teeth, 4 * teeth + 2));
+    let r: MultiPolygon<f64> = match w.op.as_str() {
+        "xor" => t.xor(&flat),
+        "difference" => flat.difference(&t),
+        "intersection" => t.intersection(&flat),
+        _ => t.union(&flat),
+    };
+    marker(&format!("returned polygons={}", r.0.len()));
+}
+
+/// A long flat box and `n` unit squares of the other operand hanging below it, each sharing a piece of the box's
+/// bottom edge: one long segment is split by `n` collinear overlapping partners (the overlap branch of the
+/// intersection step), full sweep.
+fn overlap_scenario(w: &C18World) {
+    let n = w.n.max(1);
+    let sq = |x0: f64, y0: f64, x1: f64, y1: f64| Polygon::new(LineString(vec![Coord { x: x0, y: y0 }, Coord { x: x1, y: y0 }, Coord { x: x1, y: y1 }, Coord { x: x0, y: y1 }, Coord { x: x0, y: y0 }]), vec![]);
+    let a = MultiPolygon(vec![sq(0.0, 0.0, 2.0 * n as f64 + 1.0, 1.0)]);
+    let b = MultiPolygon((0..n).map(|k| sq(1.0 + 2.0 * k as f64, -1.0, 2.0 + 2.0 * k as f64, 0.0)).collect::<Vec<_>>());
+    marker(&format!("boolean overlap {} squares={} edges={}", w.op, n, 4 * n + 4));
+    let r = match w.op.as_str() {
+        "xor" => a.xor(&b),
+        "difference" => a.difference(&b),
+        "intersection" => a.intersection(&b),
+        _ => a.union(&b),
+    };
+    marker(&format!("returned polygons={}", r.0.len()));
+}
+
 fn boolean_scenario(w: &C18World) {
     let teeth = w.n;
     let c = comb(teeth);
@@ -574,6 +613,8 @@ pub fn child_main(arg: &str) -> i32 {
             "boolean_grid" => grid_scenario(&w),
             "boolean_fan" => fan_scenario(&w),
             "boolean_row" => row_scenario(&w),
+            "boolean_hcomb" => hcomb_scenario(&w),
+            "boolean_overlap" => overlap_scenario(&w),
             _ => boolean_scenario(&w),
         }
         depth()
@@ -605,7 +646,7 @@ impl World for C18World {
         }
         let mut r = Rng::stream(seed, "workload");
         let big = if tier == Tier::Thorough { 3_000_000 } else { 1_500_000 };
-        let kind = *r.pick(&["tree", "set", "tree", "set", "tree", "set", "tree", "set", "boolean", "boolean_stairs", "boolean_nested", "boolean_grid", "boolean_fan", "boolean_row"]);
+        let kind = *r.pick(&["tree", "set", "tree", "set", "tree", "set", "tree", "set", "boolean", "boolean_stairs", "boolean_nested", "boolean_grid", "boolean_fan", "boolean_row", "boolean_hcomb", "boolean_overlap"]);
         let profile = if r.chance(1, 3) { "debug" } else { "release" };
         // sizes log-uniform over 10^3 .. big (thresholds can sit anywhere), smaller caps for unoptimised children
         let logu = |r: &mut Rng, lo: f64, hi: f64| (10f64).powf(lo + (hi - lo) * (r.below(1 << 20) as f64 / (1u64 << 20) as f64)) as u64;
@@ -627,6 +668,7 @@ impl World for C18World {
                 "boolean_nested" => (*r.pick(&["union", "xor", "intersection", "difference", "intersection_dot", "difference_dot"])).into(),
                 "boolean_grid" => (*r.pick(&["union", "xor", "intersection", "difference"])).into(),
                 "boolean_fan" | "boolean_row" => (*r.pick(&["union", "xor", "difference"])).into(),
+                "boolean_hcomb" | "boolean_overlap" => (*r.pick(&["union", "xor", "difference", "intersection"])).into(),
                 _ => (*r.pick(&["intersection", "difference"])).into(),
             },
             first: (*r.pick(&FIRSTS)).into(),
